@@ -171,3 +171,16 @@ spec("R5s-update-min-flip", "R5", (SCEN, "    if a <= b:  # type: ignore\n      
 sens("R2-is-in-step", "R2", "R2/anc", (SCHED, "    if sim.current_step is not None:\n        return sim.current_step\n    if sim.next_steps:", "    if sim.is_in_step:\n        return sim.current_step\n    if sim.next_steps:"))
 # (a variant `if sim.is_in_step or sim.current_step is not None` is correct only through the invariant is_in_step => current_step set;
 # conditions unrelated to holder/heap are free atoms for R2, so it would be reported: accepted limitation, not in the corpus)
+
+# ----------------------------------------------------------------------------- R6
+sens("R6-revert-D1", "R6", "R6/", (TT, "            if o < s:\n                if o_add_s_ext:", "            if o > s:\n                if o_add_s_ext:"))
+sens("R6-swap-consts", "R6", "R6/ti-lt", (TT, "                    assert False, f\"{self} and {other} are incomparable\"\n                return True", "                    assert False, f\"{self} and {other} are incomparable\"\n                return False"))
+sens("R6-le-first", "R6", "R6/ti-lt", (TT, "            if s < o:\n                if s_add_o_ext:", "            if s <= o:\n                if s_add_o_ext:"))
+sens("R6-fallthrough-true", "R6", "R6/ti-lt", (TT, "                return False\n        return False", "                return False\n        return True"))
+sens("R6-tt-time-only", "R6", "R6/tt-lt", (TT, "        return self.tiers < other.tiers", "        return self.tiers[0] < other.tiers[0]"))
+sens("R6-tt-no-assert", "R6", "R6/tt-lt", (TT, "    def __lt__(self, other: TieredTime) -> bool:\n        assert len(self) == len(other)\n", "    def __lt__(self, other: TieredTime) -> bool:\n"))
+sens("R6-not-frozen-eq", "R6", "R6/class", (TT, "@functools.total_ordering\n@dataclass(frozen=True)\nclass TieredTime:", "@functools.total_ordering\n@dataclass(frozen=True, eq=False)\nclass TieredTime:"))
+sens("R6-dead-test-elsewhere", "R6", "R6/dead-test", (SIMM, "        if tiered_time in self.next_steps:\n            return tiered_time\n", "        if tiered_time in self.next_steps:\n            return tiered_time\n        if tiered_time in self.next_steps:\n            return None\n"))
+spec("R6s-flip", "R6", (TT, "            if o < s:\n                if o_add_s_ext:", "            if s > o:\n                if o_add_s_ext:"))
+spec("R6s-elif", "R6", (TT, "                return True\n            if o < s:", "                return True\n            elif o < s:"))
+spec("R6s-no-enumerate", "R6", (TT, "        return self.tiers < other.tiers", "        return tuple(self.tiers) < tuple(other.tiers)"), note="expected to be reported unknown? no: tuple() wrapper")
